@@ -609,11 +609,22 @@ impl Recv {
                     let dec = old_sz - target;
                     tracing::trace!("decrementing all windows; dec={}", dec);
 
+                    let pending_window_updates = &mut self.pending_window_updates;
                     store.try_for_each(|mut stream| {
                         stream
                             .recv_flow
                             .dec_recv_window(dec)
                             .map_err(proto::Error::library_go_away)?;
+
+                        // Lowering the window also lowers the WINDOW_UPDATE
+                        // threshold, so capacity that was already released
+                        // may now be due. Nothing else would re-examine the
+                        // stream (the peer may be unable to send), so queue it.
+                        if stream.state.is_recv_streaming()
+                            && stream.recv_flow.unclaimed_capacity().is_some()
+                        {
+                            pending_window_updates.push(&mut stream);
+                        }
                         Ok::<_, proto::Error>(())
                     })?;
                 }
